@@ -478,15 +478,16 @@ void __tsan_func_exit() {}
 void __tsan_ignore_thread_begin() {}
 void __tsan_ignore_thread_end() {}
 
+static inline void plain_hook(void* a, size_t n, bool write, uintptr_t pc)
+{
+    if (!sim_thread_active()) return;
+    if (heap_in_arena((uintptr_t)a)) plain_access_point(a);
+    mem_access((uintptr_t)a, n, write, false, pc);
+}
+
 #define PLAIN(N)                                                               \
-    void __tsan_read##N(void* a)                                               \
-    {                                                                          \
-        if (sim_thread_active()) mem_access((uintptr_t)a, N, false, false, PC); \
-    }                                                                          \
-    void __tsan_write##N(void* a)                                              \
-    {                                                                          \
-        if (sim_thread_active()) mem_access((uintptr_t)a, N, true, false, PC); \
-    }                                                                          \
+    void __tsan_read##N(void* a) { plain_hook(a, N, false, PC); }              \
+    void __tsan_write##N(void* a) { plain_hook(a, N, true, PC); }                                                                          \
     void __tsan_unaligned_read##N(void* a)                                     \
     {                                                                          \
         if (sim_thread_active()) mem_access((uintptr_t)a, N, false, false, PC); \
